@@ -272,6 +272,34 @@ pub enum DumpOutcome {
     Panic(String, String),
 }
 
+/// Runs `f` while the process may only have `k` more descriptors open at any instant than it has now
+/// (soft RLIMIT_NOFILE lowered so that exactly `k` descriptor numbers are free below it): every
+/// open / opendir / pipe beyond that fails with EMFILE, as it would in a dumper that is itself short
+/// of descriptors.  Nothing else in the lane opens files while a dump runs.
+pub fn with_fd_budget<R>(k: u8, f: impl FnOnce() -> R) -> R {
+    let open: Vec<u64> = (0..4096u64).filter(|fd| unsafe { libc::fcntl(*fd as i32, libc::F_GETFD) } != -1).collect();
+    let mut limit = 0u64;
+    let mut free = 0u64;
+    let mut it = open.iter().peekable();
+    while free < k as u64 + 1 {
+        if it.peek() == Some(&&limit) {
+            it.next();
+        } else {
+            free += 1;
+        }
+        limit += 1;
+    }
+    // `limit` is now one past the (k+1)-th free number: step back so that exactly k are usable
+    limit -= 1;
+    let mut old = libc::rlimit { rlim_cur: 0, rlim_max: 0 };
+    unsafe { libc::getrlimit(libc::RLIMIT_NOFILE, &mut old) };
+    let new = libc::rlimit { rlim_cur: limit.min(old.rlim_cur), rlim_max: old.rlim_max };
+    unsafe { libc::setrlimit(libc::RLIMIT_NOFILE, &new) };
+    let r = f();
+    unsafe { libc::setrlimit(libc::RLIMIT_NOFILE, &old) };
+    r
+}
+
 thread_local! {
     static REFUSED_REGSETS: std::cell::Cell<u8> = const { std::cell::Cell::new(0) };
 }
